@@ -195,7 +195,7 @@ def fasta_input_plain(f):
 
 @st.composite
 def cli_cases(draw):
-    f = draw(gen.fasta_file(max_records=4, min_len=8, max_lines=8))
+    f = draw(gen.fasta_file(max_records=4, min_len=8, max_lines=8, exotic_headers=True))
     for i, r in enumerate(f["records"]):
         r[0] = f"ctg{i + 1}"
     # keep terminal non-ACGT runs out (a scaffold must not start or end with a gap for the remapper)
